@@ -13,13 +13,15 @@ def norm(s):
     return re.sub(r"[^A-Z0-9]", "", s.upper())
 
 
-def probe(K, b, texts, keynames):
-    """construct, str(), print_data(); project what the object reports"""
+def probe(K, b, texts, keynames, keep=None, obj=None):
+    """construct (or re-inspect obj), str(), print_data(); project what the object reports"""
     e = {"bytes": list(b), "built": False, "strok": False, "printok": False, "rc": -1, "valid": 0, "key": -1,
          "asc": -1, "ascq": -1, "has_text": False, "has_key": False}
     try:
-        x = K(bytes(b))
+        x = K(bytes(b)) if obj is None else obj
         e["built"] = True
+        if keep is not None:
+            keep.append(x)
     except Exception as ex:
         e["error"] = repr(ex)[:80]
         return e
@@ -79,10 +81,20 @@ def run(chk, replay=None):
     rng = random.Random(chk.seed)
     events, kinds = [], []
 
+    prev = []
+
     def add(K, b, kind):
-        events.append(probe(K, b, texts, keynames))
+        keep = []
+        events.append(probe(K, b, texts, keynames, keep))
         kinds.append(kind)
         ev.case((kind, bytes(b[:16])), nontrivial=True)
+        # an error object built earlier still reports ITS sense data after later ones were built
+        if prev and len(events) % 7 == 0:
+            pb, px = prev[0]
+            events.append(probe(K, pb, texts, keynames, None, px))
+            kinds.append("re-inspected after a later error was built")
+        if keep:
+            prev[:] = [(list(b), keep[0])]
     # 1. spec cases: 4 formats x 16 keys x curated codes
     for c in (cases if not chk.quick else cases[::3]):
         add(SCC, c["bytes"], "spec case")
